@@ -54,7 +54,7 @@ class G:
 # ---------------------------------------------------------------------------------------------------------------- case families
 def hashdata_cases(rng, quick, boost):
     lines = ['D']
-    reps = (3 if quick else 12) * boost
+    reps = (10 if quick else 16) * boost
     for n in range(0, 65):
         for _ in range(reps):
             lines.append('D ' + bytes(rng.randrange(256) for _ in range(n)).hex())
@@ -336,8 +336,11 @@ class C10(Spec):
                   'bytes; cmp = 0 implies equal hashes for Int, Float (non-NaN, incl. ±0), String, Type, plain structs and Ref/Box; the container hash is '
                   'invariant under permutation of the elements/entries, hence equal for eq sequences of any kind (Array/List/Tuple) and for Tables and '
                   'Trees a function of the abstract map independent of layout and insertion history; copy/assign yield an eq value with the same hash for '
-                  'scalars, Array, List, Tuple and Tree, and for Table the same hash and the same abstract map (eq only when the slot orders agree: known '
-                  'finding F06, refuted on a witness); swap exchanges the two values. The model is tied to the code by the translator (constants, steps, '
+                  'scalars, Array, List, Tuple and Tree; for Table (any layout, pairwise different keys) the copy holds a permutation of the same entries and '
+                  'the same hash — robin-hood re-insertion keeps the multiset of entries — while eq(copy(t), t) itself holds only when the slot orders agree '
+                  '(known finding F06, refuted on a witness); every Tree reached from the empty Tree by any history of set/rem is strictly descending, so its copy is eq, and two histories ending in the '
+                  'same set of entries give eq Trees with equal hashes; '
+                  'swap exchanges the two values. The model is tied to the code by the translator (constants, steps, '
                   'folds) and by op files run on both.')
     level_note = ('Trusted: Lean kernel; the regex translator g_hash.py; harness/driver comparison (testing); little-endian 8-byte load; the bit-level model '
                   'of Float_Cmp (sign of the IEEE difference, no flush-to-zero) which is tested, not proved. Not covered: NaN (eq(NaN,x) holds for every x — '
@@ -364,10 +367,10 @@ class C10(Spec):
     def cases(self, rng, tier, boost=1):
         quick = tier == 'quick'
         cs = hashdata_cases(rng, quick, boost)
-        for i in range((6 if quick else 60) * boost): cs.append(scalar_case(rng, f'scalar{i}', 30 if quick else 60))
-        for i in range((8 if quick else 80) * boost): cs.append(seq_case(rng, f'seq{i}', 12 if quick else 20, 10 if quick else (24 if i % 4 else 120)))
-        for i in range((8 if quick else 80) * boost): cs.append(map_case(rng, f'map{i}', 8 if quick else 12, 12 if quick else (30 if i % 4 else 110)))
-        for i in range((6 if quick else 60) * boost): cs.append(fuzz_case(rng, f'fuzz{i}', 300 if quick else 800))
+        for i in range((30 if quick else 100) * boost): cs.append(scalar_case(rng, f'scalar{i}', 30 if quick else 60))
+        for i in range((40 if quick else 130) * boost): cs.append(seq_case(rng, f'seq{i}', 12 if quick else 20, 10 if quick else (24 if i % 4 else 120)))
+        for i in range((40 if quick else 130) * boost): cs.append(map_case(rng, f'map{i}', 8 if quick else 12, 12 if quick else (30 if i % 4 else 110)))
+        for i in range((30 if quick else 100) * boost): cs.append(fuzz_case(rng, f'fuzz{i}', 300 if quick else 800))
         return cs
     def nontrivial_items(self, case, c_out, m_out):
         out = set()
@@ -377,6 +380,14 @@ class C10(Spec):
             if w[1] in ('eq', 'heq', 'copy', 'assign', 'swap') or (w[1] == 'D' and not l.startswith('O D len=0')):
                 out.add(hash(l))
         return out
+    def model_selfcheck(self, case, m_out):
+        """the model departs from its own reference when a Tree state is not strictly descending or a Table holds two eq keys
+        (the hypotheses the copy/assign theorems make about their source)"""
+        for l in core.lines_with('S ', m_out):
+            kv = dict(x.split('=') for x in l[2:].split() if '=' in x)
+            if int(kv.get('tree_not_descending', 0)) or int(kv.get('table_keys_not_distinct', 0)):
+                return f'invariant of the model violated on this input: {l}'
+        return None
     def stats(self, case, c_out, m_out, acc):
         for l in core.lines_with('O ', c_out):
             w = l.split(' ')
